@@ -53,6 +53,21 @@ type c07Item struct {
 	fails bool        // json.Marshal(item) must fail
 }
 
+// c07Label is a mutable item without exported fields (it encodes as {} and so falls back to the cell's text) whose
+// text changes AFTER the table has been built, without the cell being asked to update: the cell - and so the JSON
+// renderer, which shows cells - goes on showing what the cell read when it was made.
+type c07Label struct{ cur, whenBuilt, later string }
+
+func (l *c07Label) String() string { return l.cur }
+
+// txt is the text of the cell holding the item.
+func (it c07Item) txt() string {
+	if l, ok := it.item.(*c07Label); ok {
+		return l.whenBuilt
+	}
+	return c07Text(it.item)
+}
+
 const c07TextFam = gen.FAscii | gen.FHTML | gen.FMD | gen.FWide | gen.FNewline | gen.FCSV | gen.FEmoji | gen.FCombining | gen.FEdge
 
 // texts of items (as opposed to header keys) may hold anything: control characters, escape sequences, NUL, invalid UTF-8
@@ -76,6 +91,16 @@ func c07RandomItem(r *gen.R) c07Item {
 		a, b := r.Word(), r.Word()
 		return c07Item{Desc: fmt.Sprintf("item holding a nested table (%s, %s) which it renders from MarshalJSON and String", a, b), item: newNestedTableItem(a, b)}
 	case 0:
+		if r.Bool() {
+			a, b := r.Str(c07ValueFam, 3), r.Str(c07ValueFam, 3)
+			switch r.Intn(4) {
+			case 0:
+				a = ""
+			case 1:
+				b = ""
+			}
+			return c07Item{Desc: fmt.Sprintf("mutable item without exported fields reading %q while the table is built and %q afterwards (no Update)", a, b), item: &c07Label{cur: a, whenBuilt: a, later: b}}
+		}
 		return c07Item{Desc: "nil", item: nil}
 	case 1:
 		return c07Item{Desc: "empty string", item: ""}
@@ -356,8 +381,24 @@ func (s *c07Spec) headerItems() []interface{} {
 	return hs
 }
 
+// labels sets every label item to the text it has while the table is being built, or to its later text.
+func (s *c07Spec) labels(later bool) {
+	for _, r := range s.Rows {
+		for _, it := range r {
+			if l, ok := it.item.(*c07Label); ok {
+				l.cur = l.whenBuilt
+				if later {
+					l.cur = l.later
+				}
+			}
+		}
+	}
+}
+
 func (s *c07Spec) build() *tabular.ATable {
 	t := tabular.New()
+	s.labels(false)
+	defer s.labels(true)
 	s.preHeader(t)
 	if s.HasHeader {
 		t.AddHeaders(s.headerItems()...)
@@ -459,7 +500,7 @@ func (s *c07Spec) skipable(col int) bool {
 }
 
 func (s *c07Spec) skipped(col int, it c07Item) bool {
-	return s.skipable(col) && c07Text(it.item) == ""
+	return s.skipable(col) && it.txt() == ""
 }
 
 type c07Obj struct {
@@ -617,7 +658,7 @@ func c07Check(c *Ctx, s *c07Spec, sigExtra string, sample bool) {
 				continue
 			}
 			if bytes.Equal(enc, []byte("{}")) {
-				if txt := c07Text(it.item); txt != "" {
+				if txt := it.txt(); txt != "" {
 					enc, _ = stdjson.Marshal(txt)
 					c.Rec.Count("empty_object_fallbacks_to_text", 1)
 				}
